@@ -882,6 +882,59 @@ def d12_json_trial_before_open(chk: Check) -> None:
                  "prepared")
 
 
+def d15_anchor_name_is_cleaned_before_the_write(chk: Check) -> None:
+    """yaml-set has one write call and everything that can refuse the
+    request must happen before it.  The `--anchor` name is one such thing:
+    a blank (or a pasted `&` / `*`) in it is removed by validateargs,
+    because the emitter refuses such a name only while it is writing --
+    after the target was truncated.  The clean-up is folded over a sample
+    name; a `.translate()` table with text keys (looked up by code point,
+    so it never matches) is reported as such."""
+    prog = chk.prog
+    chk.rule("C17-D15", "validateargs of yaml-set removes blanks, `&` and "
+             "`*` from the --anchor name (folded over a sample name)",
+             floor=1)
+    fi = fn(prog, SET, "validateargs")
+    chk.analysed(fi)
+    defs = [a for a in walk_local(fi.node) if isinstance(a, ast.Assign) and
+            src(a.targets[0]).endswith(".anchor")]
+    if not defs:
+        chk.fail("C17-D15", fi, fi.node, "anchor clean-up",
+                 "the --anchor name reaches the writer as typed: a blank "
+                 "in it makes the emitter fail after the file was "
+                 "truncated")
+        return
+    for a in defs:
+        text = "{} = {}".format(src(a.targets[0]), src(a.value)[:60])
+        tr = [c for c in ast.walk(a.value) if isinstance(c, ast.Call) and
+              isinstance(c.func, ast.Attribute) and
+              c.func.attr == "translate" and c.args and
+              isinstance(c.args[0], ast.Dict) and any(
+                  isinstance(k, ast.Constant) and isinstance(k.value, str)
+                  for k in c.args[0].keys)]
+        if tr:
+            chk.fail("C17-D15", fi, tr[0], text,
+                     "str.translate() looks its table up by code point; a "
+                     "table keyed by one-character strings never matches, "
+                     "the name is handed on unchanged and the write dies "
+                     "in the emitter with the target already truncated")
+            continue
+        pe = PEval()
+        env = {src(a.targets[0]): Const(" & shared *name ")}
+        got = pe.value(a.value, env)
+        if not isinstance(got, Const):
+            raise AnalysisError("anchor clean-up `{}` not decided by "
+                                "folding".format(src(a.value)[:60]))
+        if got.value == "sharedname":
+            chk.ok("C17-D15", fi, a, text, "' & shared *name ' -> "
+                   "'sharedname'")
+        else:
+            chk.fail("C17-D15", fi, a, text,
+                     "' & shared *name ' becomes {!r}: a character the "
+                     "emitter refuses survives until the write".format(
+                         got.value))
+
+
 def run(chk: Check) -> None:
     model = CliModel(chk.prog)
     d1_no_exit_after_write(chk, model)
@@ -904,6 +957,7 @@ def run(chk: Check) -> None:
     # before writing rewrites the file
     from rules.shared import keyword_coupling_rule
     keyword_coupling_rule(chk, "C17-D9", (SET, MERGE, ROTATE), 5)
+    d15_anchor_name_is_cleaned_before_the_write(chk)
     from rules.c19 import d9_whole_file_writes_truncate
     d9_whole_file_writes_truncate(chk, "C17-D10", (SET, MERGE, ROTATE))
     from rules.shared import no_jump_out_of_finally_rule
